@@ -40,6 +40,8 @@ type Driver struct {
 	Prefix  string // obligation id prefix
 	AssumeFPRange bool
 	pending       string // class of the panic most recently raised
+	extCount      map[string]int
+	InitFirst     bool // run the package initialiser on both sides before the function
 }
 
 const rtPath = "github.com/goplus/llgo/runtime/internal/runtime"
@@ -53,14 +55,63 @@ func New(m *core.Machine, prog, rtp *gofe.Program, mods []*llfe.Module, pkgPath 
 		if res.Len() == 0 {
 			return nil, true
 		}
-		return x.FreshOf(res.At(0).Type(), "ext."+fn.Name()), true
+		// the k-th call of an external function yields the same symbol on both sides
+		k := d.extCount["g:"+fn.Name()]
+		d.extCount["g:"+fn.Name()] = k + 1
+		return extSym(x.LayoutOf(res.At(0).Type()), fmt.Sprintf("ext.%s@%d", fn.Name(), k)), true
 	}
 	if rtp != nil {
 		d.RT = gofe.NewExec(rtp, m)
+		// the runtime calls back into compiled code through function pointers
+		// stored in type descriptors (equal, hash) and closures
+		d.RT.Foreign = func(fp uint64, ctx *smt.Term, args []Value) (Value, bool) {
+			name, ok := d.L.FuncNameAt(fp)
+			if !ok {
+				return nil, false
+			}
+			if !d.L.Defined(name) {
+				if strings.HasPrefix(name, rtPath+".") {
+					if f := d.RTP.Main.Func(name[len(rtPath)+1:]); f != nil {
+						if len(f.Params) == len(args)+1 {
+							// closure over a runtime function: the context is its first parameter
+							args = append([]Value{ctx}, args...)
+						}
+						r, pan := d.RT.CallGo(f, args)
+						if pan != nil {
+							d.raise(pan.Class, pan.Val, name+": "+pan.Msg)
+						}
+						return r, true
+					}
+				}
+				return nil, false
+			}
+			return d.L.CallFunc(name, append([]Value{ctx}, args...)), true
+		}
 	}
-	d.L = llfe.NewExec(m, mods)
-	d.L.Bridge = d
+	d.UseL(llfe.NewExec(m, mods))
 	return d
+}
+
+// UseL installs the IR executor (the merge check swaps module orders).
+func (d *Driver) UseL(x *llfe.Exec) {
+	d.L = x
+	x.Bridge = d
+	x.ExternValue = func(name string, t *llfe.Type) Value {
+		k := d.extCount["l:"+name]
+		d.extCount["l:"+name] = k + 1
+		return extSym(llfe.CoreType(t), fmt.Sprintf("ext.%s@%d", name, k))
+	}
+}
+
+// ResetPath prepares all executors for a fresh path.
+func (d *Driver) ResetPath() {
+	d.G.StartShared()
+	if d.RT != nil {
+		d.RT.StartShared()
+	}
+	d.L.ResetPath()
+	d.gTrace = nil
+	d.extCount = map[string]int{}
 }
 
 var rtClass = map[string]string{
@@ -214,12 +265,7 @@ func (d *Driver) RunFunc(fn *ssa.Function) {
 	id := d.Prefix + fn.Name()
 	lname := d.PkgPath + "." + fn.Name()
 	d.M.Explore(func() {
-		d.G.StartShared()
-		if d.RT != nil {
-			d.RT.StartShared()
-		}
-		d.L.ResetPath()
-		d.gTrace = nil
+		d.ResetPath()
 		var args []Value
 		for i, p := range fn.Params {
 			nm := p.Name()
@@ -234,6 +280,13 @@ func (d *Driver) RunFunc(fn *ssa.Function) {
 		snap := d.M.Mem.Snapshot()
 		// ---- oracle: Go semantics
 		var og Outcome
+		if d.InitFirst {
+			if ini := d.Prog.Main.Func("init"); ini != nil {
+				if _, p0 := d.G.CallGo(ini, nil); p0 != nil {
+					og.Panic = "panic-in-init:" + p0.Class
+				}
+			}
+		}
 		res, pan := d.G.CallGo(fn, args)
 		og.Res = res
 		if pan != nil {
@@ -255,6 +308,9 @@ func (d *Driver) RunFunc(fn *ssa.Function) {
 					panic(r)
 				}
 			}()
+			if d.InitFirst {
+				d.L.CallFunc(d.PkgPath+".init", nil)
+			}
 			ol.Res = d.L.CallFunc(lname, args)
 		}()
 		ol.Trace = d.L.Trace
@@ -275,16 +331,22 @@ func (d *Driver) RunFunc(fn *ssa.Function) {
 			d.M.Assert(smt.False, id+".trace", fmt.Sprintf("external call trace length differs: Go %d, llgo %d", len(og.Trace), len(ol.Trace)), "assert")
 		} else {
 			eq := smt.True
+			detail := ""
 			for i := range og.Trace {
 				if og.Trace[i].Name != ol.Trace[i].Name || len(og.Trace[i].Args) != len(ol.Trace[i].Args) {
 					eq = smt.False
+					detail = fmt.Sprintf(" (call #%d: Go %s, llgo %s)", i, og.Trace[i].Name, ol.Trace[i].Name)
 					break
 				}
 				for k := range og.Trace[i].Args {
-					eq = smt.BAnd(eq, eqVal(og.Trace[i].Args[k], ol.Trace[i].Args[k]))
+					e := eqVal(og.Trace[i].Args[k], ol.Trace[i].Args[k])
+					if e.IsFalse() && detail == "" {
+						detail = fmt.Sprintf(" (call #%d %s: Go %v, llgo %v)", i, og.Trace[i].Name, og.Trace[i].Args[k], ol.Trace[i].Args[k])
+					}
+					eq = smt.BAnd(eq, e)
 				}
 			}
-			d.M.Assert(eq, id+".trace", "external call trace (names and argument values) differs", "assert")
+			d.M.Assert(eq, id+".trace", "external call trace (names and argument values) differs"+detail, "assert")
 		}
 		if og.Panic == "" && og.Res != nil {
 			d.M.Assert(eqVal(og.Res, ol.Res), id+".result", "result value differs between Go semantics and llgo IR", "assert")
@@ -322,4 +384,26 @@ func (d *Driver) assumeRepresentable(fn *ssa.Function, args []Value) {
 	}
 	w := d.G.LayoutOf(rt).Bits
 	d.M.Assume(smt.BNot(llfe.FPOutOfRange(args[0].(*smt.Term), w, rt.Info()&types.IsUnsigned == 0)))
+}
+
+func extSym(t *core.Type, name string) Value {
+	switch t.Kind {
+	case core.KBool:
+		return smt.BoolVar(name)
+	case core.KInt:
+		return smt.Var(name, t.Bits)
+	case core.KStruct:
+		a := make(Agg, len(t.Fields))
+		for i, f := range t.Fields {
+			a[i] = extSym(f.T, fmt.Sprintf("%s.%d", name, i))
+		}
+		return a
+	case core.KArray:
+		a := make(Agg, t.N)
+		for i := range a {
+			a[i] = extSym(t.Elem, fmt.Sprintf("%s[%d]", name, i))
+		}
+		return a
+	}
+	return nil
 }
